@@ -538,8 +538,30 @@ def loopExit (s : St) : Bool :=
 def envQuiet (s : St) : Bool :=
   (s.lwcl == none || s.lwcl == some 0) && (s.lsc == none || s.lsc == some 0) && (s.lqc == none || s.lqc == some 0)
 
-/-- run only the task thread, never letting a time-out fire, for at most `fuel` interleaving steps;
-    every branch must end with the task finished in a state satisfying `good`, without parking on the way -/
+/-- labels of the steps by which a timed wait ends through its time-out -/
+def isTimeoutLbl : Lbl → Bool
+  | .reacq false => true
+  | .evWake false => true
+  | .slWake => true
+  | _ => false
+
+/-- the steps the task thread can take without any time-out firing -/
+def taskMoves (sys : Sys) (s : St) : List (Lbl × St) := (stepThL sys s 0).filter fun p => !isTimeoutLbl p.1
+
+/-- does the step keep the task from parking anew? (`t` before, the task thread of the successor after) -/
+def noNewPark (t : Th) (s' : St) : Bool :=
+  match taskTh s' with | some t' => t.isParked || !t'.isParked | none => false
+
+/-- **the task settles**: running only the task thread and never letting a time-out fire, every branch ends — without
+    parking anew on the way — with the task thread finished in a state satisfying `good`.  No bound on the number of
+    steps: the height of the derivation is the measure. -/
+inductive Settles (sys : Sys) (good : St → Bool) : St → Prop
+  | done {s t} : taskTh s = some t → t.finished = true → good s = true → Settles sys good s
+  | step {s t} : taskTh s = some t → t.finished = false → taskMoves sys s ≠ [] →
+      (∀ p ∈ taskMoves sys s, noNewPark t p.2 = true) →
+      (∀ p ∈ taskMoves sys s, Settles sys good p.2) → Settles sys good s
+
+/-- executable form of `Settles` with fuel (only a proof device: `Lemmas/C11.lean` shows `settles … = true → Settles`) -/
 def settles (sys : Sys) (good : St → Bool) : Nat → St → Bool
   | 0, _ => false
   | f+1, s =>
@@ -548,16 +570,15 @@ def settles (sys : Sys) (good : St → Bool) : Nat → St → Bool
     | some t =>
       if t.finished then good s
       else
-        let nexts := (stepThL sys s 0).filter fun p =>
-          match p.1 with | .reacq false => false | .evWake false => false | .slWake => false | _ => true
-        !nexts.isEmpty && nexts.all fun p =>
-          (match taskTh p.2 with | some t' => t.isParked || !t'.isParked | none => false) && settles sys good f p.2
+        let nexts := taskMoves sys s
+        !nexts.isEmpty && nexts.all fun p => noNewPark t p.2 && settles sys good f p.2
 
-def settleFuel : Nat := 40
+/-- fuel for `settles`, taken from the program: the total number of instructions of the system -/
+def Sys.settleFuel (sys : Sys) : Nat := (sys.funcs.map fun f => f.code.length).foldl (· + ·) 0
 
 /-- `released_with_stop_exception`, executable form: after the stop request completed and with the other
     threads at rest, the task's own steps lead — with no time-out and no further parking — to its end -/
 def releasedB (sys : Sys) (good : St → Bool) (s : St) : Bool :=
-  !(stopperDone sys s && envQuiet s) || settles sys good settleFuel s
+  !(stopperDone sys s && envQuiet s) || settles sys good sys.settleFuel s
 
 end QmiModel.Wake
